@@ -77,17 +77,24 @@ def _real_fluid():
         return FlowProperties(pvt, 8000.0)
 
 
-def _rows_problems(calls, pp, t, nx, fluid):
-    """Compare every captured system of a real run with the backward-Euler rows built from the stored previous level."""
+def _rows_problems(calls, pp, t, nx, fluid, cls=None):
+    """(a) every captured system of a real run against the backward-Euler rows built from the stored previous level;
+    (b) every STORED level against the backward-Euler update of the stored previous level (whatever the code solved,
+    re-used or skipped), with the mesh constant of the first captured system (documented constant if none)."""
     import numpy as np
     problems = []
     H = None
     m_i = 1.0 if fluid is None else float(fluid.m_i)
+
+    def alpha_of(pm):
+        return np.ones(nx) if fluid is None else np.asarray(fluid.alpha(pm), float) / float(fluid.alpha(fluid.m_i))
     for i, c in enumerate(calls):
+        if i >= len(t) - 1:
+            break
         prev = pp[i]
         dt = t[i + 1] - t[i]
         pm = np.minimum(prev, m_i)
-        a = np.ones(nx) if fluid is None else np.asarray(fluid.alpha(pm), float) / float(fluid.alpha(fluid.m_i))
+        a = alpha_of(pm)
         A, b = c["A"], c["b"]
         Hi = -A[nx - 1, nx - 2] / (dt * a[nx - 1])
         H = Hi if H is None else H
@@ -103,6 +110,22 @@ def _rows_problems(calls, pp, t, nx, fluid):
             if np.any(np.abs(A[j] - want) > 1e-9 * (1 + abs(r))) or abs(b[j] - pm[j]) > 1e-12 * (1 + abs(pm[j])):
                 problems.append(f"step {i} row {j}: matrix row {A[j].tolist()} rhs {b[j]!r} vs backward-Euler row {want.tolist()} rhs {pm[j]!r} "
                                 f"(stored previous level {prev.tolist()})")
+    if H is None:
+        H = float((nx - 1) ** 2 if fluid is None and cls != "SinglePhaseReservoir" else nx ** 2)
+    for i in range(len(t) - 1):
+        prev, x = pp[i], pp[i + 1]
+        dt = t[i + 1] - t[i]
+        pm = np.minimum(prev, m_i)
+        a = alpha_of(pm)
+        for j in range(1, nx):
+            r = dt * H * a[j]
+            lap = (x[j - 1] - 2 * x[j] + x[j + 1]) if j < nx - 1 else (x[j - 1] - x[j])
+            res = x[j] - pm[j] - r * lap
+            scale = abs(pm[j]) + r * (abs(x[j - 1]) + 2 * abs(x[j]) + (abs(x[j + 1]) if j < nx - 1 else 0.0)) + 1e-300
+            if abs(res) > 1e-9 * scale:
+                problems.append(f"stored level {i + 1}, node {j}: backward-Euler residual {res!r} (relative {abs(res) / scale:.2e}) against the stored level {i} "
+                                f"with dt={dt!r}: {prev.tolist()} -> {x.tolist()}")
+                break
     return problems
 
 
@@ -111,10 +134,11 @@ def replay_rows(model, cls="SinglePhaseReservoir", nx=4, nt=3, schedule=False):
     up, which lets the field relax further towards the schedule), the model's frac-face schedule and diffusivity (a
     duck-typed FlowProperties built from the solver's model) and the shipped gas table.  The havoc'd level of the
     symbolic step is NOT injected: a violation is reported only if some real run stores a level that is not the
-    backward-Euler update of the stored previous level."""
+    backward-Euler update of the stored previous level.  The time grid is also scaled up (the field relaxes further
+    towards the schedule) and down (very fine steps, where a shortcut that looks at the change per step would fire)."""
     import numpy as np
     runs = []
-    for scale in (1.0, 30.0, 1000.0):
+    for scale in (1.0, 30.0, 1000.0, 1e-3, 1e-6, 1e-9):
         t = [float(model.get("t0") or 0.0)]
         for k in range(1, nt):
             t.append(t[-1] + scale * float(model.get(f"dt{k}") or 10.0 ** (-k)))
@@ -139,9 +163,48 @@ def replay_rows(model, cls="SinglePhaseReservoir", nx=4, nt=3, schedule=False):
                 sched = 200.0 + np.clip(mf, 0.0, 1.0) * 7000.0
             res, calls = real_capture(cls, nx, t, fluid, sched)
             runs.append((f"times {t.tolist()}, shipped gas table, p_i=8000, schedule {sched.tolist()}", fluid, res, calls, t))
+    # long runs on very fine / slowly drifting grids against an independent backward-Euler stepper written here (dense
+    # solve per step): a shortcut that skips or re-uses steps leaves a per-step residual below rounding level on such
+    # grids and only shows in the accumulated field
+    for label, tl in (("uniform dt=1e-7, 3000 steps", np.arange(3001) * 1e-7), ("uniform dt=1e-6, 3000 steps", np.arange(3001) * 1e-6),
+                      ("geometric, ratio 1+5e-6, 3000 steps", np.concatenate([[0.0], np.cumsum(1e-3 * (1 + 5e-6) ** np.arange(3000))]))):
+        if cls == "IdealReservoir":
+            fl = None
+            res, calls = real_capture(cls, max(nx, 6), tl, None, None)
+        else:
+            fl = _real_fluid()
+            res, calls = real_capture(cls, max(nx, 6), tl, fl, np.full(len(tl), 1000.0))
+        n = max(nx, 6)
+        pp = np.asarray(res.pseudopressure, float)
+        ref = pp[0].copy()
+        H = float((n - 1) ** 2) if fl is None else float(n * n)
+        m_i = 1.0 if fl is None else float(fl.m_i)
+        mf = 0.0 if fl is None else float(fl.m_scaled_func(1000.0))
+        for i in range(len(tl) - 1):
+            pm = np.minimum(ref, m_i)
+            if fl is not None:
+                pm[0] = mf
+            a = np.ones(n) if fl is None else np.asarray(fl.alpha(pm), float) / float(fl.alpha(fl.m_i))
+            r = (tl[i + 1] - tl[i]) * H * a
+            A = np.zeros((n, n))
+            for j in range(n):
+                A[j, j] = 1 + 2 * r[j]
+                if j:
+                    A[j, j - 1] = -r[j]
+                if j < n - 1:
+                    A[j, j + 1] = -r[j]
+            A[n - 1, n - 1] = 1 + r[n - 1]
+            rhs = pm.copy()
+            if fl is not None:
+                rhs[0] = mf + r[0] * mf
+            ref = np.linalg.solve(A, rhs)
+        d = float(np.abs(pp[-1] - ref).max())
+        if d > 1e-7 * m_i:
+            return True, {"what": f"{cls} nx={n}, {label}: the final stored level differs from an independent backward-Euler stepper by {d:.3e} "
+                                  f"(real {pp[-1][:4].tolist()}.. vs reference {ref[:4].tolist()}..)", "inputs": {"grid": label}}
     for what, fluid, res, calls, t in runs:
         pp = np.asarray(res.pseudopressure, float)
-        problems = _rows_problems(calls, pp, t, nx, fluid)
+        problems = _rows_problems(calls, pp, t, nx, fluid, cls)
         if problems:
             return True, {"what": f"{cls} nx={nx}, {what}: " + "; ".join(problems[:2]), "inputs": {k: v for k, v in model.items() if k != "__uf__"}}
     return False, {"what": f"{cls} nx={nx}: every row of {len(runs)} real runs is the backward-Euler row", "inputs": {k: v for k, v in model.items() if k != "__uf__"}}
@@ -266,10 +329,35 @@ def job_rows(job, cls, nx, nt, schedule=False, reachable=False):
             job.errors.append(f"{tag} raised {pr.exc!r}")
             continue
         r, fluid, t, calls = pr.value
-        if len(calls) != nt - 1:
+        rows = rows_of(r)
+        if reachable:
+            # stored levels against the backward-Euler update of the stored previous level, whatever was solved, re-used
+            # or skipped on this path (the linear solves are ideal: A x = b for the system the code built)
+            from ..sx.sym import s_min
+            Hdoc = Q((nx - 1) ** 2) if cls == "IdealReservoir" else Q(nx * nx)
+            for i in range(nt - 1):
+                prev, x = rows[i], rows[i + 1]
+                dt = t.d[i + 1] - t.d[i]
+                if fluid is None:
+                    a, pm = [Q(1)] * nx, prev
+                else:
+                    pm = [s_min(v, fluid.m_i) for v in prev]
+                    a = [fluid.alpha(v) / fluid.alpha(fluid.m_i) for v in pm]
+                bad = []
+                for j in range(1, nx):
+                    rj = dt * Hdoc * a[j]
+                    lap = (x[j - 1] - 2 * x[j] + x[j + 1]) if j < nx - 1 else (x[j - 1] - x[j])
+                    d = P(x[j] - pm[j] - rj * lap)
+                    if not d.is_zero():
+                        bad.append(T.b_not(T.b_eq0(d)))
+                job.prove(f"{tag}/stored level {i + 1} is the backward-Euler update of stored level {i} (nodes 1..{nx - 1})[path{k}]",
+                          pr.pc + [T.b_or(*bad) if bad else T.b_const(False)], bound=f"nx={nx}, any dt, documented mesh constant", replay=rp)
+            job.prove(f"{tag}/reach[path{k}]", pr.pc, expect="sat")
+            if len(calls) != nt - 1:
+                continue
+        elif len(calls) != nt - 1:
             job.errors.append(f"{tag}: {len(calls)} linear solves for {nt - 1} steps")
             continue
-        rows = rows_of(r)
         H0 = None
         for i, c in enumerate(calls):
             prev = rows[i]
